@@ -17,7 +17,7 @@ RULE = (
     "architecture has at least one import edge and all readings of the documentation agree"
 )
 ASSUMPTIONS = [
-    "architectures are realizable: importers are leaf modules (files), never packages with children",
+    "architectures are realizable: importers are leaf modules (files); packages with children import only in the separate space N (module file next to a package of the same stem) and only modules unrelated to them",
     "strict oracle only on pairwise unrelated subject/object identifiers; cases where the documentation admits two readings are counted as ambiguous and not judged",
     "evaluable built through the internal constructor EvaluableArchitectureGraph(NetworkxGraph(...)); bound to the scanner by the seam-equivalence part of C04",
 ]
@@ -30,6 +30,8 @@ def plan(tier, seed):
             shards += [dict(s, naming=naming, bound=s["bound"] + " naming=" + naming) for s in plan_graph_shards("A", n_max=4, chunk=16)]
         shards += plan_graph_shards("B", n_max=5, n_min=5, k=2, parts=4)
         shards += plan_graph_shards("B", k=2, parts=8, with_ext=True, tree_list=list(trees(4)))
+        shards += plan_graph_shards("N", n_max=5, n_min=3, k=2, parts=2)
+        shards += [dict(s, phantom=True, bound=s["bound"] + " + imports of non-modules") for s in plan_graph_shards("A", n_max=4, chunk=16)]
     else:
         shards = plan_graph_shards("A", n_max=5, chunk=32)
         for naming in ("adversarial", "selfprefix", "unicode"):
@@ -37,6 +39,8 @@ def plan(tier, seed):
         shards += plan_graph_shards("B", n_max=6, n_min=6, k=3, parts=16)
         shards += plan_graph_shards("B", k=3, parts=16, with_ext=True, tree_list=list(trees(5)))
         shards += plan_graph_shards("B", k=2, parts=16, with_ext=True, tree_list=list(BIG_TREES))
+        shards += plan_graph_shards("N", n_max=6, n_min=3, k=3, parts=8)
+        shards += [dict(s, phantom=True, bound=s["bound"] + " + imports of non-modules") for s in plan_graph_shards("A", n_max=5, chunk=64)]
     req = []
     for verb in ("should", "should_only", "should_not"):
         for exc in (False, True):
@@ -83,7 +87,7 @@ def run_shard(shard, tier, seed):
     res = Result(shard["bound"])
     for ns, I in shard_graphs(shard, seed):
         ns, I = renamed_graph(ns, I, shard.get("naming", "identity"))
-        ev = build(ns, I, seed)
+        ev = build(ns, I, seed, phantom=shard.get("phantom", False))
         res.states += 1
         specs = _specs(ns)
         for spec in specs:
@@ -92,7 +96,7 @@ def run_shard(shard, tier, seed):
             v = judge(ns, I, spec, ev, seed, res)
             if v:
                 res.violation(
-                    v[0], {"modules": ns, "imports": I, "rule": spec_to_json(spec), "seed": seed},
+                    v[0], {"modules": ns, "imports": I, "rule": spec_to_json(spec), "seed": seed, "phantom": shard.get("phantom", False)},
                     v[1], v[2],
                 )
         if res.states == 1 and I:
@@ -102,7 +106,7 @@ def run_shard(shard, tier, seed):
 
 def _check_case(case):
     ns, I, spec = case["modules"], [tuple(e) for e in case["imports"]], case["rule"]
-    ev = build(ns, I, case.get("seed", 0))
+    ev = build(ns, I, case.get("seed", 0), phantom=case.get("phantom", False))
     return judge(ns, I, spec, ev, case.get("seed", 0), None)
 
 
